@@ -28,6 +28,7 @@ type apiCase struct {
 	Kind    string            `json:"kind"`
 	Tree    scratch.Tree      `json:"tree"`
 	Asserts map[string]string `json:"assertion_files"`
+	Rerun   bool              `json:"generated_twice,omitempty"` // goverter is run a second time over the output of the first run
 	root    string
 }
 
@@ -215,7 +216,7 @@ func runC01(e *env) error {
 	if e.thorough {
 		n = 120 * e.scale
 	}
-	cases := apiCases(r, n, base)
+	cases := w10c01AddLayouts(e, r, apiCases(r, n, base), base) // w10_c01.go
 	type obs struct {
 		res      scratch.Result
 		buildOut string
@@ -234,6 +235,9 @@ func runC01(e *env) error {
 				return
 			}
 			out[i].res = scratch.Run(bin, c.root, []string{"gen", "./..."}, nil, 120*time.Second)
+			if c.Rerun && out[i].res.Exit == 0 {
+				out[i].res = scratch.Run(bin, c.root, []string{"gen", "./..."}, nil, 120*time.Second)
+			}
 			if out[i].res.Exit != 0 {
 				return
 			}
